@@ -233,6 +233,30 @@ def exec_pair(rel, stmts, s1, s2):
     for stmt in stmts:
         nxt = []
         for (a, b) in pairs:
+            if isinstance(stmt, ast.For) and rel.c.options.get("rel_lockstep") and not _is_range_loop(stmt) and isinstance(stmt.target, ast.Name):
+                # a loop over the elements of a short array of literal length (e.g. the single lambda of the later robust rounds):
+                # unrolled in lockstep, element by element, so that branches inside the body stay paired
+                it1, it2 = ex.eval(stmt.iter, a), ex.eval(stmt.iter, b)
+                if isinstance(it1, Arr) and isinstance(it2, Arr) and it1.ndim == 1 and it2.ndim == 1 and isinstance(it1.shape[0], int) \
+                        and it1.shape[0] == it2.shape[0] and it1.shape[0] <= 6:
+                    cur, outs = [(a, b)], []
+                    for kv in range(it1.shape[0]):
+                        nx = []
+                        for (x, y) in cur:
+                            x.env[stmt.target.id] = ex.read(x, it1, (kv,), stmt, check=False)
+                            y.env[stmt.target.id] = ex.read(y, it2, (kv,), stmt, check=False)
+                            rel.similar(x, y, stmt.target.id, f"L{stmt.lineno}.elt{kv}")
+                            for (p_, q_, kind, v1, v2) in exec_pair(rel, stmt.body, x, y):
+                                if kind in (NORMAL, CONTINUE):
+                                    nx.append((p_, q_))
+                                elif kind == BREAK:
+                                    outs.append((p_, q_, NORMAL, None, None))
+                                else:
+                                    outs.append((p_, q_, kind, v1, v2))
+                        cur = nx
+                    for r in outs + [(p_, q_, NORMAL, None, None) for (p_, q_) in cur]:
+                        (nxt if r[2] == NORMAL else done).append(r if r[2] != NORMAL else (r[0], r[1]))
+                    continue
             if isinstance(stmt, ast.For) and rel.c.options.get("rel_lockstep") and _is_range_loop(stmt):
                 for r in lockstep_for(rel, stmt, a, b):
                     (nxt if r[2] == NORMAL else done).append(r if r[2] != NORMAL else (r[0], r[1]))
@@ -304,6 +328,8 @@ def exec_pair(rel, stmts, s1, s2):
                 (extensionality), so that nested applications f(g(x)) are equal by congruence instead of by a search.  Used only when
                 a similarity is not found without it (the extra array equalities slow other queries down)."""
                 if not (n1 - n0 == n2 - n1 and n1 > n0):
+                    if os.environ.get("HDCV_REL_TRACE"):
+                        print(f"[rel]   no pairing at L{stmt.lineno}: {n1 - n0} restricted arrays in run 1, {n2 - n1} in run 2", flush=True)
                     return False
                 got = False
                 for (c1, nd1), (c2, nd2) in zip(log[n0:n1], log[n1:n2]):
